@@ -159,6 +159,22 @@ def main(tier: str, seed: int) -> int:
             cases.append({'cfg': cfgd, 'h': h, 'seed': seed * 100 + i,
                           'dir': i % 2 == 0, 'tlc': i % 4 == 0})
             i += 1
+    # pipeline parallelism: every stage owns its own layers, the saved state
+    # of every rank still holds the factors of ALL layers of the model
+    # (clipping inactive: with several stages the clip factor is per stage,
+    # which no listed property covers)
+    ptopos = [(2, 1, 1), (2, 2, 1), (2, 1, 2)] if tier == 'quick' else \
+        [(2, 1, 1), (2, 2, 1), (2, 1, 2), (2, 2, 2), (4, 1, 1)]
+    for P, D, M in ptopos:
+        for hi, h in enumerate(hs[:3 if tier == 'quick' else 12]):
+            cfgd = dict(W=P * D * M, k=1, prediv=False, method='eigen', F=1,
+                        I=2, kl_clip=1e9, damping=0.05,
+                        bucket_cap_mb=[25.0, 0.0][i % 2],
+                        gpt={'P': P, 'D': D, 'M': M, 'bias_col': True,
+                             'bias_row': bool(i % 3), 'model': 'deep'})
+            cases.append({'cfg': cfgd, 'h': h, 'seed': seed * 100 + i,
+                          'dir': i % 2 == 0, 'tlc': i % 3 == 0})
+            i += 1
     outs = pmap(run_case, cases)
     states, trans = tlc_counts
     loads = saves = 0
@@ -201,6 +217,8 @@ def main(tier: str, seed: int) -> int:
                                                        for x in c['h']]])
                                     for c in cases
                                     if c['cfg']['gpt']['D'] * c['cfg']['gpt']['M'] > 1}),
+        'pipeline_parallel_cases': sum(1 for c in cases
+                                       if c['cfg']['gpt'].get('P', 1) > 1),
         'rule': 'cases = topologies x save/load behaviours of KfacRef.tla '
                 '(checkpoint at every step boundary after the first factor '
                 'update); executed in-memory under 2 schedules and (every '
